@@ -1468,12 +1468,12 @@ class HttpHeaderFieldValueSetCookie(FieldValueBase):  # pylint: disable=too-many
 
         parser.parse_string_until_separator('name', '=')
         parser.parse_separator('=')
-        parser.parse_string_until_separator_or_end('value', '; ')
+        parser.parse_string_until_separator_or_end('value', '; \t')
 
-        parser.parse_separator(' ', min_length=0)
+        parser.parse_separator(' \t', min_length=0)
         if parser.unparsed:
             parser.parse_separator(';')
-        parser.parse_separator(' ', min_length=0)
+        parser.parse_separator(' \t', min_length=0)
 
         parser.parse_parsable('params', HttpHeaderFieldValueSetCookieParams)
 
